@@ -658,8 +658,12 @@ def plan_digest(plan):
         extra = (id(nd.fn), id(nd.stack_frame)) if t == "Call" else (id(nd.value),) if t == "Literal" else ()
         nodes.append((id(nd), t, getattr(nd, "scope", "<no scope>"), extra, tuple(sorted(map(repr, g.nodes[nd].items())))))
     edges = sorted((id(u), id(v), edge_key_repr(k), tuple(sorted(map(repr, d.items())))) for u, v, k, d in g.edges(keys=True, data=True))
-    return (tuple(nodes), tuple(edges), plan._scope, tuple(sorted(map(repr, g.graph.items()))))
+    # any other attribute on the Plan object (a flag left set, ...) counts too
+    extra = tuple(sorted((k, repr(v)) for k, v in vars(plan).items() if k not in ("graph", "_scope", "_scope_lock")))
+    return (tuple(nodes), tuple(edges), plan._scope, tuple(sorted(map(repr, g.graph.items()))), extra)
 
 
 def registry_digest(reg):
-    return tuple((id(n), id(rv.value_store), rv.is_source, id(rv.stack_frame)) for n, rv in reg.mapping.items())
+    extra = tuple(sorted((k, repr(v)) for k, v in vars(reg).items() if k != "mapping"))
+    return (id(reg.mapping), type(reg.mapping).__name__, extra,
+            tuple((id(n), id(rv.value_store), rv.is_source, id(rv.stack_frame)) for n, rv in reg.mapping.items()))
